@@ -287,7 +287,7 @@ def check_text_rewrites(ctx, tree, cls):
     from ..interp import Interp, Obj, Raised, Env, Closure
     from ..source import dotted as _dotted
     funcs = [n for n in tree.body if isinstance(n, ast.FunctionDef) and n.name.startswith('render_')]
-    funcs += [m for m in cls.body if isinstance(m, ast.FunctionDef) and m.name in ('get_string', 'get_exec_params')]
+    funcs += [m for m in cls.body if isinstance(m, ast.FunctionDef) and (m.name in ('get_string', 'get_exec_params') or m.name.startswith('get_') and 'string' in m.name)]
     ctx.need(len(funcs) >= 4, 'render_dml_query / render_ddl_query / get_string / get_exec_params not found')
     # helper functions callable by name: this module's and `from mindsdb_sql.<mod> import name`
     helpers = {n.name: n for n in tree.body if isinstance(n, ast.FunctionDef)}
